@@ -443,6 +443,8 @@ def judge_step(g, op, rc, W, R, si):
     A0 = sum(area_of(c) for c in old['cols'])
     A1 = sum(area_of(c) for c in new['cols'])
     R.check(abs(A1 - A0) <= 1e-9 * A0 + slack, tag + ':area', 'total plan area (exact shoelace) %r -> %r' % (A0, A1))
+    dev = abs(A1 - A0) / (1e-9 * A0 + slack)
+    R.label('area:deviation/tolerance:%s' % ('0' if dev == 0 else ('<1e-6' if dev < 1e-6 else ('<1e-3' if dev < 1e-3 else ('<0.1' if dev < 0.1 else '>=0.1')))))
     libarea_new = float(g.area)
     R.check(abs(libarea_new - libarea_old) <= 1e-9 * abs(libarea_old) + slack, tag + ':area',
             'mulgrid.area %r -> %r' % (libarea_old, libarea_new))
